@@ -165,6 +165,56 @@ func (P *Program) runStructural(spec string) []StructObl {
 			}
 		}
 		return ok("no assignment found")
+	case "field-writers":
+		// field-writers <pkg.Type> <field,field,...> <allowed fn key substrings, comma separated>: the listed fields are
+		// stored to only inside the allowed (constructor) functions - so a fact the constructor establishes about them is an
+		// invariant of every object of the type (the object-invariant argument behind TicOK and the term filter's handler)
+		fields := map[string]bool{}
+		for _, f := range strings.Split(fs[2], ",") {
+			fields[f] = true
+		}
+		allowed := strings.Split(fs[3], ",")
+		seenField := map[string]bool{}
+		nw := 0
+		for _, fn := range P.allRepoFuncs() {
+			if !P.isLibrary(fn) {
+				continue
+			}
+			key := P.fnKey(fn)
+			isAllowed := false
+			for _, a := range allowed {
+				if a != "" && strings.Contains(key, a) {
+					isAllowed = true
+				}
+			}
+			for _, b := range fn.Blocks {
+				for _, ins := range b.Instrs {
+					st, isStore := ins.(*ssa.Store)
+					if !isStore {
+						continue
+					}
+					fa, isFA := st.Addr.(*ssa.FieldAddr)
+					if !isFA {
+						continue
+					}
+					stt, named := structOfPtrType(fa.X.Type())
+					if stt == nil || P.sorts.typeName(named) != fs[1] || !fields[stt.Field(fa.Field).Name()] {
+						continue
+					}
+					seenField[stt.Field(fa.Field).Name()] = true
+					nw++
+					if !isAllowed {
+						return fail("%s.%s is written in %s at %s (only %s may write it)", fs[1], stt.Field(fa.Field).Name(), key, P.fset.Position(st.Pos()), fs[3])
+					}
+				}
+			}
+		}
+		for f := range fields {
+			if !seenField[f] {
+				return fail("no store to %s.%s found at all (renamed field or constructor?)", fs[1], f)
+			}
+		}
+		return ok(fmt.Sprintf("%d store(s), all inside %s", nw, fs[3]))
 	case "no-caller":
 		// no-caller <funcKey>: no library code calls the function
 		target := P.fnByKey[fs[1]]
